@@ -258,4 +258,5 @@ func genC07(t *testing.T) {
 	if common.Batch == 0 {
 		typedNilFailures("C07")
 	}
+	progsC07(t)
 }
